@@ -439,8 +439,7 @@ func buildMatured(p *pair, env0 *stateEnv) (*stateEnv, string) {
 	if os.Getenv("C09_TIMING") != "" {
 		fmt.Println("update step:", time.Since(t1))
 	}
-	b.step() // token contract mints what the updates asked for
-	b.step()
+	b.settle() // the token contract mints what the updates asked for, the liquidity contract receives it
 	return env, b.fail
 }
 
